@@ -230,4 +230,23 @@ theorem checkMem_rip (c : Spec.X86.Ctx) (r : Rule) (p : Parsed) (m : MemOp) (mb 
   simp [checkMem, hmodrm, hmod, hrm, hm64, hno67, hno67', ha16, hvs, hbk, hik, hs, hds, wantedAddrSize, bind, Except.bind, pure, Except.pure]
   simpa using hd
 
+/-- absolute address `[disp32]` in 64-bit mode: mod = 00, rm = 100, SIB = 00 100 101 (no base, no index), disp32 sign-extended to 64 bits
+(no 67 prefix) or zero-extended (67 prefix: address size 32) is the operand's address -/
+theorem checkMem_abs (c : Spec.X86.Ctx) (r : Rule) (p : Parsed) (m : MemOp) (mb s : BitVec 8) (a32 : Bool)
+    (hm64 : c.mode64 = true) (hno67 : p.prefixes.contains 0x67#8 = a32) (ha16 : p.addr16 = false)
+    (hmodrm : p.modrm = some mb) (hmod : bits mb 6 2 = 0) (hrm : bits mb 0 3 = 4)
+    (hbk : m.baseKind = .none) (hik : m.indexKind = .none) (hat : m.addrType ≠ 2)
+    (hs : p.sib = some s) (hsb : bits s 0 3 = 5) (hsi : bits s 3 3 = 4) (hss : bits s 6 2 = 0) (hX : p.X = false) (hds : p.dispSize = 4)
+    (hd : sextNat p.disp 32 % ((2 ^ (if a32 then 32 else 64) : Nat) : Int) = (m.disp.toNat : Int)) :
+    checkMem c r p m = .ok () := by
+  have hvs : vsibOf m = .none := by simp [vsibOf, hik]
+  have hat' : (m.addrType == 2) = false := by simpa using hat
+  cases a32
+  · have hno67' : ¬ (0x67#8 ∈ p.prefixes) := by simpa using hno67
+    simp [checkMem, hmodrm, hmod, hrm, hm64, hno67, hno67', ha16, hvs, hbk, hik, hs, hsb, hsi, hss, hX, hds, hat', regNum, wantedAddrSize, bind, Except.bind, pure, Except.pure]
+    simpa using hd
+  · have hno67' : 0x67#8 ∈ p.prefixes := by simpa using hno67
+    simp [checkMem, hmodrm, hmod, hrm, hm64, hno67, hno67', ha16, hvs, hbk, hik, hs, hsb, hsi, hss, hX, hds, hat', regNum, wantedAddrSize, bind, Except.bind, pure, Except.pure]
+    simpa using hd
+
 end AsmjitVerif.Lemmas.X86Parse
